@@ -1730,3 +1730,48 @@ def virtnarrow(repo):
     res.samples = [f"{wname}: ${{{filler[0]}}} <- {oname} for integer fields (header_generator.py:{filler[2]}); predicate {pred}"]
     res.analysed = [TEMPLATES, hg.rel]
     return res
+
+
+def virtok(repo):
+    """R-VIRTOK (C01): "a field exists iff its condition holds".  Physical fields and aliases under a false `if` are
+    handed out as null views (R-ACCESSOR); the view class of a *computed* virtual field is always constructed, so its
+    own methods have to consult `has_<name>()`.  References to a field from other expressions are rendered as
+    `x.Ok() ? Maybe(x.UncheckedRead()) : Maybe()`, so `Ok()` is what makes dependants of an absent field unknown: in
+    the template `structure_single_virtual_field_method_declarations`, `Ok()` returns false when
+    `!view_.has_${name}().ValueOr(false)` *before* it evaluates MaybeRead(), and Read() CHECKs the same predicate
+    (the two agree: Read() may not abort right after Ok() said the field is readable)."""
+    res = RuleResult("R-VIRTOK")
+    tp = Templates(repo)
+    name = "structure_single_virtual_field_method_declarations"
+    if name not in tp:
+        raise AnalysisError(f"template {name} vanished")
+    text = re.sub(r"//[^\n]*", "", tp[name]["text"])
+
+    def body_of(sig):
+        m = re.search(sig + r"\s*\(\s*\)\s*const\s*\{", text)
+        if not m:
+            return None
+        depth, i = 1, m.end()
+        while i < len(text) and depth:
+            depth += {"{": 1, "}": -1}.get(text[i], 0)
+            i += 1
+        return text[m.end():i - 1]
+    ok = body_of(r"\bbool\s+Ok")
+    rd = body_of(r"\$\{logical_type\}\s+Read")
+    if ok is None or rd is None:
+        raise AnalysisError(f"{name}: Ok() / Read() not recognised")
+    res.instances = 2
+    pres = r"view_\s*\.\s*has_\$\{name\}\s*\(\s*\)\s*\.\s*ValueOr\s*\(\s*false\s*\)"
+    pm = re.search(r"if\s*\(\s*!\s*" + pres + r"\s*\)\s*(?:\{\s*)?return\s+false\s*;", ok) or \
+        re.search(r"return\s+" + pres + r"\s*&&", ok)
+    mr = ok.find("MaybeRead(")
+    if not pm or (mr >= 0 and pm.start() > mr):
+        res.add(f"{TEMPLATES}|{name}|Ok|presence", "Ok() of a computed virtual field does not test `view_.has_${name}()` before evaluating the "
+                "expression: under a false `if` the field is Ok() (and Read() aborts on its own CHECK), and every expression that "
+                "mentions it -- other fields' conditions, $size_in_bytes -- silently uses the value it would have",
+                TEMPLATES, tp[name]["line"], name)
+    if not re.search(r"EMBOSS_CHECK\s*\(\s*" + pres + r"\s*\)", rd):
+        res.add(f"{TEMPLATES}|{name}|Read|presence", "Read() of a computed virtual field no longer CHECKs `has_${name}()`",
+                TEMPLATES, tp[name]["line"], name)
+    res.analysed = [TEMPLATES]
+    return res
